@@ -766,7 +766,7 @@ impl Walrus {
                 }
             }
 
-            let end = block.used.min(cur_off + want);
+            let end = block.used.min(cur_off.saturating_add(want));
             if end > cur_off {
                 plan.push(ReadPlan {
                     blk: block.clone(),
